@@ -454,6 +454,7 @@ def main(tier, seed, replay=None):
     run.cov.update({"position_and_substitution": {
         "cases": len(pcases), "both_sides_agree_on_the_implementation": p_agree, "verdict_code_histogram": phist,
         "rewrite_histogram": khist, "context_layer_histogram": lhist,
+        "layers_between_root_and_rewrite_histogram": {str(k): sum(1 for c in pcases if c["stream"] == "position" and len(c["layers"]) == k) for k in sorted({len(c["layers"]) for c in pcases if c["stream"] == "position"})},
         "rule": "(i) a documented equivalence (let/->/call forms, array and dict sugar vs spelled-out set, an operand hidden behind && / || / cond, each in both directions) applied 3-6 forms deep inside a larger program built from 50 context layers (every operand position of the operators, literals, calls, ?:, dot, let, ->, &&, ||, cond arms and defaults, where / => / >> / >>> / rank function bodies, let and function binders that bind names the redex uses, and the (expr) literals, fallbacks and dict keys inside array / tuple / dict / set patterns); the position is emitted as a one-hole context of Eval/Rewrite.v and the reference interpreter runs `plug C e` and `plug C e'`; an enumerated core puts every layer innermost and outermost under every rewrite kind. (ii) `let x = v; body` against body with the free x replaced by v, where body rebinds x by let, \\x, ->, =>, >>, where, cond patterns, array / tuple / dict / set patterns and reads the outer x in pattern literals, fallbacks and dict keys (15 enumerated shapes x 3 + random bodies); the interpreter also runs its own `subst x v body`. Compared: implementation(original) = implementation(rewritten) (the property), each against the interpreter, and interpreter(original) = interpreter(rewritten) = interpreter(subst)",
         "samples": [{"kind": c["stream"] + ":" + c["kind"], "original": c["src1"][:200], "rewritten": c["src2"][:240]} for c in pcases[::pstep]][:6]}})
     run.cov.update({"evaluations": len(reqs) + len(mcases) + 2 * len(pcases), "distinct_nontrivial": agree_val + p_agree,
